@@ -496,6 +496,14 @@ func runC15(t *testing.T, tape *verifsim.Tape, prop, tier string, keepLog bool) 
 			res.Info["stuck_runs"]++ // liveness is C02's business (its HTTP stage, below)
 		}
 		if prop == "C02" && cw.setupErr == "" {
+			if stop == verifsim.Violated {
+				if f, err := os.OpenFile("/tmp/allviol.log", os.O_APPEND|os.O_CREATE|os.O_WRONLY, 0o644); err == nil {
+					for _, v := range sim.Violations() {
+						fmt.Fprintf(f, "%s %s %s\n", v.Property, v.Signature, firstN(v.Msg, 400))
+					}
+					f.Close()
+				}
+			}
 			cw.checkC02(sim, stop)
 		}
 		w.teardown()
